@@ -1,4 +1,5 @@
 mod l1;
+mod l2;
 mod util;
 
 fn main() {
@@ -13,10 +14,12 @@ fn main() {
                 let mut it = line.split(' ');
                 match it.next() {
                     Some("L1") => l1::run_case(&line),
+                    Some("L2") => l2::run_case(&line),
                     _ => {}
                 }
             }
         }
-        _ => eprintln!("usage: harness cases < casefile"),
+        "itemsize" => println!("{}", l2::stack_item_size()),
+        _ => eprintln!("usage: harness cases < casefile | harness itemsize"),
     }
 }
